@@ -245,6 +245,12 @@ class C14:
                 if got[1] != exp_res:
                     diff = {k: (got[1].get(k), exp_res.get(k)) for k in set(got[1]) | set(exp_res) if got[1].get(k) != exp_res.get(k)}
                     fails.append(("resource-names", f"{attempt}: resources (got, expected) differ: {diff}"))
+                import vkplugins.comps as _vc
+
+                if not deep_same(_vc.A_DEFAULT_D, _vc.A_DEFAULT_D_PRISTINE):
+                    fails.append(("defaults-modified", f"{attempt}: the hard-coded add_component() defaults were modified in place: {_vc.A_DEFAULT_D!r}"))
+                    _vc.A_DEFAULT_D.clear()
+                    _vc.A_DEFAULT_D.update(copy.deepcopy(_vc.A_DEFAULT_D_PRISTINE))
                 if attempt == "first" and not deep_same(cfg, pristine):
                     fails.append(("config-modified", f"the configuration passed to start_component changed from {pristine!r} to {cfg!r}"))
             if len(res["samples"]) < 1 and case["config"]:
